@@ -40,6 +40,15 @@ def generate(tier, nfixed, nsim, natoms=NATOMS):
         raise Broken("GenNL produced %d + %d cases" % (len(cases), len(simc)))
     for c in simc:
         c["id"] += 100000
+    # names are byte strings: in every third model with functions or suffixes the last function name and the first
+    # suffix name get bytes >= 0x80 (a name in Latin-1 / UTF-8, as AMPL writes it for non-English models)
+    for c in cases + simc:
+        if c["id"] % 3 == 0:
+            m = c["m"]
+            if m.get("funcs"):
+                m["funcs"][-1]["name"] += "_co\u00fbt\u00c3\u00a9"
+            if m.get("sufs"):
+                m["sufs"][0]["name"] += "\u00e9"
     return cases + simc, exh, sim
 
 
